@@ -22,7 +22,7 @@ id,prop,claimed,path=sys.argv[1],sys.argv[2],sys.argv[3].split(),sys.argv[4]
 out=open(path).read()
 failed=[l.split()[1] for l in out.splitlines() if l.startswith("FAILED ")]
 viol=[l for l in out.splitlines() if l.startswith("VIOLATION")]
-d={"property":prop,"claimed":prop in claimed,"caught":len(viol)>0,"failed_obligations":failed[:12],"summary":[l for l in out.splitlines() if l.startswith("govc:")][:1]}
+d={"property":prop,"claimed":prop in claimed,"caught":len(viol)>0 and len(failed)>0,"failed_obligations":failed[:12],"summary":[l for l in out.splitlines() if l.startswith("govc:")][:1]}
 json.dump(d,open(f"/verif/seeded/{id}/detection.json","w"),indent=1)
 print(id, "CAUGHT" if d["caught"] else "missed", ", ".join(failed[:3]))
 PY
